@@ -165,6 +165,15 @@ class Ctx(object):
         xs = [asobj(a).reshape(-1) for a in arrays]
         return wrap(_np.concatenate([x.plain() for x in xs]), 'c')
 
+    def expm(self, A):
+        """matrix exponential: the same uninterpreted function (registry) the code under test sees / scipy in concrete mode"""
+        if self.mode == 'conc':
+            import scipy.linalg
+            return scipy.linalg.expm(_np.asarray(A))
+        from . import lapack
+        from .array import asobj
+        return lapack.policy().expm(asobj(A))
+
     def const_frac(self, num, den=1):
         if self.mode == 'conc':
             return num / den
@@ -186,6 +195,14 @@ class Ctx(object):
     # -------------------------------------------------------------- obligations
     def _assum(self, extra=()):
         a = list(self.assumptions) + list(extra)
+        if self.sym:
+            # obligations are claimed where the divisions executed by the code are defined
+            from . import state
+            seen = set()
+            for dnm in state.S.denoms:
+                if dnm.get_id() not in seen:
+                    seen.add(dnm.get_id())
+                    a.append(dnm != 0)
         ex = getattr(self, 'explorer', None)
         if ex is not None:
             a += list(ex.assumes) + list(ex.pc)
@@ -348,6 +365,24 @@ class Ctx(object):
         state.reset()
         return ok
 
+    def via(self, label, run_fn, spec_fn, through=('ortho_left', 'ortho_right'), tol=1e-8, form='I'):
+        """Compositional obligation: the value computed by run_fn() equals spec_fn() when every factorisation is the
+        trivial one, AND every factorisation call is issued from one of the functions in `through` (whose invariance
+        under ALL valid factorisations is decided elsewhere, e.g. C03 for ortho_*).  Cheaper than the full chain."""
+        if not self.sym:
+            return self.eq(label, run_fn(), spec_fn(), form=form, tol=tol)
+        from . import state, lapack
+        state.reset()
+        lapack.set_policy(lapack.TrivPolicy())
+        out = run_fn()
+        fac = [c for c in state.S.stub_log if c.kind in ('svd', 'qr', 'rq')]
+        bad = [c.callers[:3] for c in fac if not any(t in c.callers for t in through)]
+        ok = self.check(label + ': every factorisation (%d) is issued from %s' % (len(fac), '/'.join(through)), not bad, detail=repr(bad[:3]))
+        self.stub_calls += len(fac)
+        ax = list(state.S.axioms)
+        ok &= self.eq(label, out, spec_fn(), form=form, extra_assumptions=ax)
+        return ok
+
     # ------------------------------------------------------------------- forking
     def explore(self, label, fn, cap=256):
         """run fn() on every feasible path (symbolic branch conditions).  fn returns a value
@@ -368,5 +403,6 @@ class Ctx(object):
         finally:
             self.explorer = None
         self.paths += len(paths)
-        self.notes.append('%s: %d feasible paths, %d feasibility queries' % (label, len(paths), ex.queries))
+        self.notes.append('%s: %d feasible paths, %d feasibility queries (%d answered unknown -> branch explored)' % (
+            label, len(paths), ex.queries, ex.unknown_feasibility))
         return [(p, p.result) for p in paths]
